@@ -610,18 +610,55 @@ def run_cli(xalan, libdir, workdir, sh, src, params, variant):
     return ("ok", p.stdout)
 
 
-def gen_writes(r, bs, oracle_class):
-    """a write sequence around the buffer size bs; oracle_class: narrow writes only directly after a flush"""
+# the variant of XalanOutputStream in the tree (GenForms.stream_keeps_high_surrogate): True = repaired for K05e
+STREAM_FIXED = [False]
+
+
+def gen_writes(r, bs, oracle_class, surrogates=False):
+    """a write sequence around the buffer size bs; oracle_class: narrow writes only directly after a flush;
+    surrogates: supplementary characters arrive unit by unit, at the end / the start of blocks - a high
+    surrogate is always followed by its low surrogate in the next unit written (no flush in between)"""
     ws = []
     flushed = True
+    need_low = False
+
+    def unit():
+        return r.randrange(0x21, 0x7f)
+
+    def low():
+        return r.randrange(0xDC00, 0xE000)
+
+    def block(n):
+        d = [unit() for _ in range(max(n, 0))]
+        if surrogates and len(d) >= 2 and r.random() < 0.3:
+            k = r.randrange(len(d) - 1)
+            d[k], d[k + 1] = r.randrange(0xD800, 0xDC00), low()        # a pair inside the block
+        return d
     for _ in range(r.randrange(1, 14)):
         k = r.random()
+        if need_low:
+            k = r.choice([0.1, 0.6])
         if k < 0.5:
             n = r.choice([0, 1, 1, 2, max(bs, 1) - 1, max(bs, 1), max(bs, 1) + 1, 2 * max(bs, 1), 2 * max(bs, 1) + 1, r.randrange(0, 3 * max(bs, 1) + 3)])
-            ws.append(("w", [r.randrange(0x21, 0x7f) for _ in range(max(n, 0))]))
+            if need_low:
+                d = [low()] + block(max(n, 1) - 1)
+                need_low = False
+            else:
+                d = block(n)
+            if surrogates and d and r.random() < 0.35 and not (0xD800 <= d[-1] < 0xE000) and not (len(d) >= 2 and 0xD800 <= d[-2] < 0xDC00):
+                d[-1] = r.randrange(0xD800, 0xDC00)                    # the block ends with the first half of a pair
+                need_low = True
+            ws.append(("w", d))
             flushed = flushed and n == 0
         elif k < 0.75:
-            ws.append(("c", [r.randrange(0x21, 0x7f)]))
+            if need_low:
+                ws.append(("c", [low()]))
+                need_low = False
+            elif surrogates and r.random() < 0.4:
+                ws.append(("c", [r.randrange(0xD800, 0xDC00)]))
+                need_low = True
+            else:
+                ws.append(("c", [unit()]))
             flushed = False
         elif k < 0.87:
             ws.append(("f", []))
@@ -631,6 +668,8 @@ def gen_writes(r, bs, oracle_class):
                 ws.append(("f", []))
             ws.append(("n", [r.randrange(0x21, 0x7f) for _ in range(r.randrange(0, 5))]))
             flushed = True if oracle_class else flushed
+    if need_low:
+        ws.append(("c", [low()]))
     return ws
 
 
@@ -666,6 +705,12 @@ def run(ctx):
     if not ok_h:
         ctx.broken.append("harness does not compile against the working tree: " + hlog[-500:])
         return ctx.finish(LEVEL)
+    try:
+        import gen_forms
+        STREAM_FIXED[0] = bool(gen_forms.gen_forms()[1].get("stream_keeps_high_surrogate"))
+    except Exception:
+        STREAM_FIXED[0] = False      # the translator failure is already recorded by ctx.prove
+    ctx.notes["repo_variant"] = {"stream_keeps_high_surrogate": STREAM_FIXED[0]}
     known = {k["key"]: k for k in ctx.known.for_property("C05")}
     state = {"corr": [], "orc": [], "known_hits": {}, "info": {}}
 
@@ -855,8 +900,9 @@ def evaluate(ctx, r, impl, model, xalan, scale, state):
     for i in range(nO):
         bs = r.choice([0, 1, 2, 3, 4, 7, 8, 16, 64])
         oracle_class = True     # the library is built with assertions: a narrow write on a non-empty buffer aborts
-        ws = gen_writes(r, bs, oracle_class)
-        enc = r.choice(["u16", "loc"])
+        # the local code page cannot take surrogates; a real transcoder (UTF-8) only once pairs are never split
+        enc = r.choice(["u16", "u16", "loc"] + (["UTF-8", "UTF-8"] if STREAM_FIXED[0] else []))
+        ws = gen_writes(r, bs, oracle_class, surrogates=(enc != "loc"))
         if r.random() < 0.8:
             ws.append(("f", []))
         cid = "o%d" % i
@@ -887,6 +933,8 @@ def evaluate(ctx, r, impl, model, xalan, scale, state):
         def enc_units(us, wide):
             if wide and enc == "u16":
                 return "".join("%02x%02x" % (u & 255, u >> 8) for u in us)
+            if wide and enc == "UTF-8":
+                return b"".join(bytes((u & 255, u >> 8)) for u in us).decode("utf-16-le", "surrogatepass").encode("utf-8", "surrogatepass").hex()
             return "".join("%02x" % u for u in us)
         if len(chunks_i) >= 2:
             ctx.cov["distinct_nontrivial"] += 1
@@ -903,8 +951,18 @@ def evaluate(ctx, r, impl, model, xalan, scale, state):
                     chunks_m.append(enc_units(us, False))
             if chunks_m != chunks_i:
                 corr.append({"mode": "O", "case": o_by_id[cid][:300], "impl": chunks_i[:12], "model": chunks_m[:12]})
+        if "EXC" in toks:
+            orc.append(("chunks", "the stream raised an exception on well-formed UTF-16 (a surrogate pair was split between two transcoder calls?)", o_by_id[cid]))
         if oracle_class and ws and ws[-1][0] == "f":
-            exp = "".join(enc_units(d, k != "n") for k, d in ws if k != "f")
+            # runs of wide units are encoded as a whole (a pair may arrive in two writes)
+            exp, run_ = "", []
+            for k, d in ws:
+                if k == "n":
+                    exp += enc_units(run_, True) + enc_units(d, False)
+                    run_ = []
+                elif k != "f":
+                    run_ = run_ + d
+            exp += enc_units(run_, True)
             if "".join(chunks_i) != exp:
                 orc.append(("chunks", "callback chunks %s do not concatenate to the written data %s" % (chunks_i[:10], exp[:200]), o_by_id[cid]))
             if nflush and nflush[0] != "F%d" % sum(1 for k, _ in ws if k == "f"):
@@ -914,6 +972,9 @@ def evaluate(ctx, r, impl, model, xalan, scale, state):
     nT = 70 * scale
     t_cases = []
     for key, (sh, src) in KNOWN_REPLAYS.items():
+        if key == "K05e" and STREAM_FIXED[0]:
+            t_cases.append({"id": "tf" + key, "sheet": sh, "src": src, "params": [], "flags": set(), "cls": "fixed:" + key, "srcflags": set(), "seed": 1})
+            continue
         t_cases.append({"id": "tk" + key, "sheet": sh, "src": src, "params": [], "flags": {"x"} if key != "K05e" else set(), "cls": "known:" + key,
                         "srcflags": {"K05a": {"nsaxis"}, "K05b": {"attrorder"}, "K05e": {"textastral"}}[key], "seed": 1})
     for key, (sh, src) in FIXED_REPLAYS.items():
@@ -922,7 +983,7 @@ def evaluate(ctx, r, impl, model, xalan, scale, state):
         cls, sh, flags = gen_sheet(r)
         srcflags = set()
         # substring() cuts surrogate pairs (C02 K6/K7): no astral characters where the stylesheet uses it
-        astral_text = "T8" in flags and r.random() < 0.25
+        astral_text = "T8" in flags and (STREAM_FIXED[0] or r.random() < 0.25)
         ALPHA_CUR[0] = ALPHA_BMP if (cls in ("docorder", "keys", "text", "union", "longtext") or ("T8" in flags and not astral_text)) else ALPHA
         unsorted = r.random() < 0.06
         top = [("p", "xml-stylesheet", 'type="text/xsl" href="main.xsl"')] + gen_doc(r, sorted_attrs=not unsorted, size=r.choice([3, 8, 20, 40, 40]))
@@ -933,8 +994,8 @@ def evaluate(ctx, r, impl, model, xalan, scale, state):
             root = [t for t in top if t[0] == "e"][0]
             root[3].insert(0, ("e", "b", [], [("t", rand_text(r, "long"))]))
         ALPHA_CUR[0] = ALPHA
-        if astral_text and any(ord(ch) > 0xFFFF for ch in str(top)):
-            srcflags.add("textastral")
+        if astral_text and not STREAM_FIXED[0] and any(ord(ch) > 0xFFFF for ch in str(top)):
+            srcflags.add("textastral")      # class K05e (original stream only)
         variants = r.random() < 0.45
         doctype = r.random() < 0.25 or cls == "doctype-probe"
         src = serialise(r, top, variants=variants, doctype=doctype, flags=srcflags)
